@@ -18,4 +18,7 @@ def run(ctx, res):
     lookup.rule_outstanding(ctx, res)
     lookup.rule_announce(ctx, res, content=True)
     lookup.rule_finish_once(ctx, res)
-    c12.rule_response_routing(ctx, res)
+    gate_inside = c12.rule_response_routing(ctx, res)
+    # "a response whose transaction id equals that of a still-outstanding query": ids are compared as 8-byte values, so a
+    # longer id must not be cut down to one (the gate in the dispatcher and the exact-length conversion)
+    c12.rule_tid_gate(ctx, res, common.Dispatcher(ctx), gate_inside=bool(gate_inside))
